@@ -91,9 +91,9 @@ func (r *run) export(nth int) (*bundle, error) {
 	switch c.Path {
 	case "v1v1":
 		if c.Via == "acra-backup" {
-			return cliExport(r.src.dir)
+			return cliExport(spellDir(r.src.dir, c.DirSpell))
 		}
-		bk, err := filesystem.NewKeyBackuper(r.src.dir, "", &filesystem.DummyStorage{}, fix.V1Encryptor(), r.src.v1())
+		bk, err := filesystem.NewKeyBackuper(spellDir(r.src.dir, c.DirSpell), "", &filesystem.DummyStorage{}, fix.V1Encryptor(), r.src.v1())
 		if err != nil {
 			return nil, err
 		}
@@ -206,9 +206,9 @@ func (r *run) imp(b *bundle) error {
 	switch r.c.Path {
 	case "v1v1":
 		if r.c.Via == "acra-backup" {
-			return cliImport(r.tgt.dir, b)
+			return cliImport(spellDir(r.tgt.dir, r.c.DirSpell), b)
 		}
-		bk, err := filesystem.NewKeyBackuper(r.tgt.dir, "", &filesystem.DummyStorage{}, fix.V1Encryptor(), nil)
+		bk, err := filesystem.NewKeyBackuper(spellDir(r.tgt.dir, r.c.DirSpell), "", &filesystem.DummyStorage{}, fix.V1Encryptor(), nil)
 		if err != nil {
 			return err
 		}
